@@ -84,6 +84,7 @@ PROPS = {
         "assumptions": ["acceptance is decided by the C05 reference arbiter; nothing is demanded while it is 'unconstrained'"],
     },
     "C09": {
+        "engine": "E1+E3",
         "builds": PROTO, "runs": proto_runs("c09"), "level": "model_checking",
         "technique": "product (bisimulation) exploration: closure of reachable states, Reset applied in each, then closure of (post-Reset, fresh) pairs under all continuations with byte-equal traces",
         "assumptions": ["trace equality is demanded, not state equality (stale unobservable fields are allowed)",
@@ -99,6 +100,10 @@ PROPS = {
                         "visited set stores 128-bit hashes of the canonical state (hash compaction)"],
     },
 }
+
+
+LEVEL_TEXT = {}
+NOT_APPLICABLE = {}
 
 
 def run_custom(pid, spec, tier, seed, replay):
